@@ -71,6 +71,7 @@ func Load(dir, goarch string) (*Program, error) {
 	p := &Program{Dir: dir, GOARCH: goarch, Roots: pkgs, ByPath: map[string]*packages.Package{}, SSA: prog}
 	packages.Visit(pkgs, nil, func(pk *packages.Package) { p.ByPath[pk.PkgPath] = pk })
 	p.Fset = pkgs[0].Fset
+	BuildContextIndex(p.Funcs())
 	return p, nil
 }
 
